@@ -319,4 +319,41 @@ example (w : Writer) (hw : w.length = 65551) : (Payload.tlv 4 []).writeTo w = .e
   simp [Payload.writeTo, Payload.chunks, Writer.writeChunksE, Writer.writeAll, Writer.write,
     writerLimit, minLen, hw, be16Bytes]
 
+/-- Values written one after another into the same writer (monadic fold of `writeTo`,
+collecting the returned sizes). -/
+def writeSeq : List Payload → Writer → Option (List Nat × Writer)
+  | [], w => some ([], w)
+  | p :: ps, w => match p.writeTo w with
+    | .error _ => none
+    | .ok (n, w1) => match writeSeq ps w1 with
+      | none => none
+      | some (ns, w2) => some (n :: ns, w2)
+
+/-- The size a write reports is the size of *that* value, whatever was written into the same
+writer before: any number of values written in sequence while the result still fits a full-size
+header all succeed, each returns the length of its own encoding, and the writer ends up holding
+its old content followed by the encodings in order. -/
+theorem sequence_sizes (ps : List Payload) (es : List B) (w : Writer)
+    (henc : ps.map enc = es.map some)
+    (hfit : w.length + es.flatten.length ≤ 65535 + 16) :
+    writeSeq ps w = some (es.map List.length, w ++ es.flatten) := by
+  induction ps generalizing es w with
+  | nil =>
+    cases es with
+    | nil => simp [writeSeq]
+    | cons e es => simp at henc
+  | cons p ps ih =>
+    cases es with
+    | nil => simp at henc
+    | cons e es =>
+      simp only [List.map_cons, List.cons.injEq] at henc
+      simp only [List.flatten_cons, List.length_append] at hfit
+      have h1 := success_below_limit p w e henc.1 (by omega)
+      have h2 := ih es (w ++ e) henc.2 (by simp only [List.length_append]; omega)
+      simp only [writeSeq, h1, h2, List.map_cons, List.flatten_cons, List.append_assoc]
+
+/-- Non-vacuity: the same TLV written twice reports 6 both times (not 6 and 12). -/
+example : writeSeq [Payload.tlv 4 [1, 2, 3], Payload.tlv 4 [1, 2, 3]] [9] =
+    some ([6, 6], [9, 4, 0, 3, 1, 2, 3, 4, 0, 3, 1, 2, 3]) := by decide
+
 end C20
